@@ -14,13 +14,15 @@ it is a proved lemma.  Chain (u = 2^-24, x = val(a), a = E*2^23 + M the input bi
 
  FIELDS   (z3, bit-vectors, all a in range)   sign(leaf)=0, 1 <= ey <= 254, and with p = E&1, q = E>>1, r = p*2^22 + (M>>1), b = [r > Mc]:
           ey = Ec - q - b,  my = Mc + b*2^23 - r,  2*ey + E - 381 = 2*Ec - 381 + p - 2*b         (Ec, Mc: fields of C = leaf term at a = 0)
- DECODE   (trusted: IEEE-754 binary32 encoding)  val = 2^(e-127)*(1+m/2^23) for 1 <= e <= 254, val = m*2^-149 for e = 0.  With FIELDS:
+ DECODE   (trusted: IEEE-754 binary32 encoding)  val = 2^(e-127)*(1+m/2^23) for 1 <= e <= 254, val = bits*2^-149 for e <= 1.  With FIELDS:
           z := y0^2 * x = 2^(2*Ec-381+p-2b) * (1+my/2^23)^2 * (1+M/2^23)   - the exponent of x cancels, every binade is covered at once.
  ZRANGE   (z3 nlsat, reals M, mt=(M>>1) in [M/2-1/2, M/2]; four cases (p,b) that cover everything)   0.9003 <= z <= 1.1035
  HALF     (z3, bit-vectors)  the node fp.mul(0.5, x):  E >= 2 -> bits = a - 2^23 (exact halving);  E = 1 -> |2*bits - a| <= 1 (subnormal result,
           absolute error <= 2^-150 <= 2^-23 * x/2)                                         => xhalf = (x/2)(1+d0), |d0| <= 2^-23
- RANGE    (z3, bit-precise IEEE on the real term, one atom each)  every other operation node has sign 0 and biased exponent in [2, 254]; for add/sub
-          nodes additionally |exponent difference of the operands| <= 28 (exact result fits binary64)
+ RANGE    (z3, bit-precise IEEE on the real term, one atom each)  every other operation node has constant sign and biased exponent in [2, 254]; for add/sub
+          nodes additionally |exponent difference of the operands| <= 28 (exact result fits binary64).  Modular: a node whose exponent varies by at most 2 over a
+          fixed list of concrete inputs (evaluated on the term; this only PROPOSES the interval) is proved to stay in exactly that interval for all inputs, and the
+          nodes above it are proved with that node replaced by an arbitrary float of the interval (here: xhalf*y0*y0 in [0.25,1) => 1.5 - t in [0.5,2) => Y normal)
  STDMODEL (trusted: IEEE-754 correct rounding = SMT-LIB FloatingPoint semantics of fp.mul/fp.add/fp.sub under RNE)  fl(r) = RNE(r) for the exact
           real r; supported by solver lemmas ROUND (every binary64 r with 2^-126 <= |r| <= 2^127: |binary32(r) - r| <= 2^-24 |r|, the subtraction being
           exact) and EXACT64 (product of any two binary32 numbers / difference with exponent gap <= 28 is exact in binary64).
@@ -32,9 +34,10 @@ it is a proved lemma.  Chain (u = 2^-24, x = val(a), a = E*2^23 + M the input bi
 When a lemma fails, the counterexample of the abstraction is lifted to a window of bit patterns and a bit-precise query with the EXACT specification
 (Y^2*x evaluated without rounding in a wider FP sort) is asked there; only a solver model that reproduces natively (g++ and clang++) is a VIOLATION,
 anything else is INCONCLUSIVE.  thorough additionally proves RANGE for every (L,k) instead of one representative per commutativity class, adds mutant
-twins, and re-proves the claim for x in [1,4) fully bit-precisely (no STDMODEL): 512 sub-intervals (biased exponent 127/128, top 8 mantissa bits fixed;
-the union is syntactically all of [1,4)), each with constant bounds  L_j <= Y <= H_j  where L_j^2*min(x) > (1-2^-8)^2 and H_j^2*max(x) < (1+2^-8)^2 are
-asserted in exact rational arithmetic.
+twins, and re-proves the claim for x in [1,4) fully bit-precisely (no STDMODEL, no DECODE beyond the monotone order of positive floats): biased exponent 127/128
+with the top 8 (lower bound; 512 sub-intervals) resp. top 7 (upper bound; 256 sub-intervals) mantissa bits fixed - the index runs over all values, so the union is
+syntactically all of [1,4) - each with a constant bound  Y >= L_j  resp.  0 < Y <= H_j  where L_j^2*min(x) > (1-2^-8)^2 and H_j^2*max(x) < (1+2^-8)^2 are asserted in
+exact rational arithmetic (cvc5 first, z3 as fallback; a spurious model halves the interval, from depth 3 on with the exact specification).
 """
 from props.common import *
 from fractions import Fraction as F
@@ -45,14 +48,14 @@ CLAIM = ("lowp fast approximation glm::inversesqrt(vec<L,float,lowp>), L = 1..4,
          "(1-2^-8)^2 < Y^2*x < (1+2^-8)^2 (relative error of Y against 1/sqrt(x) below 2^-8).  Decided by a chain of solver obligations on the symbolic-execution term of the real code: "
          "bit-vector lemmas on the magic-constant leaf (fields of y0 as integer functions of the fields of x, all exponents at once), exact-halving lemma, bit-precise IEEE range lemmas "
          "per operation node, polynomial identity (scale invariance), and nlsat bounds over y0^2*x and the rounding errors of the standard model; thorough adds a fully bit-precise proof "
-         "for x in [1,4) over a complete partition into 512 sub-intervals.")
+         "for x in [1,4) over complete partitions into 512 (lower bound) and 256 (upper bound) sub-intervals.")
 BOUNDS = ("x: every positive normal binary32 value, bits 0x00800000..0x7f7fffff (2^-126 <= x < 2^128), fully symbolic (biased exponent and mantissa); vector lengths 1-4, every component; "
           "no unwinding (straight-line code).  quick: bit-precise RANGE lemmas once per class of components whose terms agree up to the order of commutative operands; thorough: every component, "
           "plus bit-precise interval proof on [1,4) for the vec1 instance.")
 OUTSIDE = ("x = 0, subnormal x (the approximation is NOT accurate there: e.g. x = 2^-127 (bits 0x00400000) gives Y*sqrt(x)-1 = -3.8e-2, x = 0 gives the finite value 1.98e19), negative x, inf, NaN; "
            "aligned (SIMD) lowp qualifiers; the trusted IEEE facts listed in ASSUMPTIONS (binary32 encoding; correct rounding of fp.mul/fp.sub) are not re-derived bit-precisely for all binades - "
            "only for x in [1,4) in the thorough tier.")
-ASSUMPTIONS = ['IEEE-754 binary32 encoding: a pattern with biased exponent 1 <= e <= 254 and mantissa m denotes 2^(e-127)*(1+m/2^23), with e = 0 it denotes m*2^-149 (used to turn the proved integer relations between fields into real relations; 2^(a+b) = 2^a*2^b)',
+ASSUMPTIONS = ['IEEE-754 binary32 encoding: a pattern with biased exponent 1 <= e <= 254 and mantissa m denotes 2^(e-127)*(1+m/2^23), with e <= 1 it denotes bits*2^-149 (used to turn the proved integer relations between fields into real relations; 2^(a+b) = 2^a*2^b)',
                'standard model of IEEE-754 round-to-nearest-even arithmetic: fp.mul/fp.add/fp.sub return RNE(exact real result); for a result with biased exponent in [2,254] this gives fl = exact*(1+d), |d| <= 2^-24.  '
                'The rounding part (|binary32(r)-r| <= 2^-24|r| for every binary64 r in the normal range) and the exactness of the products/differences in binary64 are discharged by the solver (lemmas stdmodel.*); '
                'that fp.mul on binary32 equals rounding the exact product is the definition of the operation (SMT-LIB FloatingPoint theory) and is not re-proved',
@@ -421,13 +424,17 @@ def prove_interval(S, c, B, nfree, label, depth=0):
     Lb, Hb = interval_bounds(B, nfree)
     exact = depth >= 3
     if exact: g = dict((l, t) for l, t in exact_goals(c.a, c.Y.fp))[label]
-    else: g = (c.Y.bits >= bv(Lb, 32)) if label == 'lo' else z3.And(c.Y.bits <= bv(Hb, 32), c.Y.bits >= 0)       # signed comparisons: negative floats are negative integers
+    else:       # FP comparisons (cvc5 has no fp.to_ieee_bv): NaN fails both, -x and +inf fail 'hi', so lo and hi together give finite, positive, within bounds
+        g = z3.fpGEQ(c.Y.fp, fpof(bv(Lb, 32))) if label == 'lo' else z3.And(z3.fpLEQ(c.Y.fp, fpof(bv(Hb, 32))), z3.fpGT(c.Y.fp, FPV(0.0)))
     name = '%s.bits[%#010x+2^%d].%s' % (c.name, B, nfree, label)
-    bd = 'bit-precise IEEE, inputs %#010x..%#010x; %s' % (B, B + (1 << nfree) - 1, 'exact specification' if exact else ('Y >= %#x' % Lb if label == 'lo' else '0 < Y <= %#x' % Hb))
+    bd = 'bit-precise IEEE, inputs %#010x..%#010x; %s' % (B, B + (1 << nfree) - 1, 'exact specification' if exact else ('Y >= %s (bits %#x)' % (bits_to_float(Lb, 32), Lb) if label == 'lo' else '0 < Y <= %s (bits %#x)' % (bits_to_float(Hb, 32), Hb)))
     t = S.cap(120, 300)
-    r, m, dt, used = S.query(hy + [z3.Not(g)], t, 'z3')
+    # cvc5 (symfpu) is about twice as fast as z3 on these queries; z3 is the fallback
+    r, m, dt, used = S.query(hy + [z3.Not(g)], min(t, 90), 'cvc5', vars_=[c.a])
+    if r == 'unknown':
+        r, m, dt2, used2 = S.query(hy + [z3.Not(g)], t, 'z3'); dt += dt2; used = used + '+' + used2
     if r == 'sat':
-        xb = m.eval(c.a, model_completion=True).as_long()
+        xb = m.get(c.a.sexpr(), 0) if isinstance(m, dict) else m.eval(c.a, model_completion=True).as_long()
         bad, info = native_eval(c, xb)
         if bad:
             S.rec(name=name, kind='spec', functions=FNTXT(c.L), bounds=bd, solver=used, result=r, time_s=round(dt, 3), mandatory=True, status='counterexample', replay='reproduced', replay_info=info)
